@@ -194,10 +194,11 @@ def main(argv):
         ('d' * 7090, 0, None, 0), ('B' + 'b' * 7999, 3, None, None), ('a' * 4297, 0, None, 1), ('b' * 3000, None, 39, 2),
     ]:
         jobs.append(('build', (spec, ecl, ver, mode), chk.seed))
-    if chk.tier == 'thorough':
-        jobs.append(('build_real_score', ('b' * 4, 1, None, 2), chk.seed))
-    else:
-        chk.outside.append('panic obligations inside score::line (quick tier): discharged by the C11 check for V1-V2; on lines longer than 29 modules they are beyond the solver cap')
+    # (a run of the whole build with the real scoring un-stubbed was tried and dropped: its score::line overflow obligations
+    #  are functions of 4 payload bytes through RS and masking and are not decided within 240 s; C11 discharges the same
+    #  obligations with every data module free, which covers every reachable matrix)
+    if True:
+        chk.outside.append('panic obligations inside score::line: discharged by the C11 check (every data module free) for V1-V2 (V1-V6 thorough); on lines longer than 29 modules they are beyond the solver cap')
     for v in ([0, 1, 2] if chk.tier == 'quick' else [0, 1, 2, 3, 6, 9]) + [rng.choice(range(20, 40))]:
         jobs.append(('place', (v,), chk.seed))
     for (v, l) in [(0, 0), (0, 3), (4, 2), (rng.randrange(10, 40), rng.randrange(4))]:
@@ -217,12 +218,12 @@ def main(argv):
     chk.jobs(c11.job_score, sj, extra={'native': native_path})
     jobs = jobs + sj
     chk.cov['runs'] = len(jobs)
-    chk.bounds += ['%d symbolic runs of pipeline entry points (QRCode::new cells incl. lengths beyond every capacity, one with the real scoring; place_on_matrix; '
+    chk.bounds += ['%d symbolic runs of pipeline entry points (QRCode::new cells incl. lengths beyond every capacity; place_on_matrix; '
                    'structure+division; encode) - contents symbolic (so all-zero, all-0xFF and pad look-alikes are included), shapes enumerated' % len(jobs),
                    'Kani: best_encoding up to 24 bytes, Version::get for every usize length (all 12 capacity harnesses incl. the no-wrap clause, 2 of the 12 beyond-2^40 ones; all 24 in C05), GF kernel']
     chk.outside += ['forced modes whose alphabet does not contain the input (documented panic)',
                     'cells/versions not run here; the panic obligations of every other check (C01, C02, C03, C04, C06, C07, C08, C15) are discharged in those checks as well']
-    chk.assumptions += ['a loop with a symbolic trip count would be reported as unsupported (none met)', 'score::score uninterpreted except in the one run that executes it symbolically']
+    chk.assumptions += ['a loop with a symbolic trip count would be reported as unsupported (none met)', 'score::score uninterpreted in the build runs; its functions are executed on free modules in the scoring runs']
     chk.finish()
 
 
